@@ -49,6 +49,16 @@ m("c01-all-instead-of-any", "C01", "write x read clause quantified with all() in
                                 .all(|left| fn_next_borrows.iter().any(|right| left == right))""", 1))
 m("c01-ne-instead-of-eq", "C01", "write x read clause compares declared types with != instead of ==",
   (AUG, """.any(|left| fn_next_borrows.iter().any(|right| left == right))""", """.any(|left| fn_next_borrows.iter().any(|right| left != right))""", 1))
+m("c17-eq-asymmetric-projection", "C17", "GraphInfo == maps the other side's edges to (source, source, weight)",
+  ("src/graph_info.rs", """        let other_edges = other
+            .graph
+            .raw_edges()
+            .iter()
+            .map(|e| (e.source(), e.target(), &e.weight));""", """        let other_edges = other
+            .graph
+            .raw_edges()
+            .iter()
+            .map(|e| (e.source(), e.source(), &e.weight));""", 1))
 m("c01-counts-before-augment", "C01", "predecessor counts are computed before data-edge augmentation",
   (BLD, """        DataEdgeAugmenter::augment(&mut graph, &ranks);
         #[cfg(feature = "async")]
